@@ -1,6 +1,6 @@
 (* C14 - query subscribers are always told when their result may have changed.
    Only statements; every proof is `exact <lemma of Index/Proofs.v>`. *)
-From GoRes Require Import Index.Proofs.
+From GoRes Require Import Index.Proofs Index.RunCommon Index.InitStep.
 Open Scope N_scope.
 
 (* The index tasks of any change sequence do, per change and in order: the
@@ -123,6 +123,16 @@ Theorem handler_step_coherent : forall {St C Q} (qs : qstore St C Q) (h : qhandl
   view_equiv (client_step qs h s' c rid cq (view_of_get (get_resource qs h s rid cq)))
              (view_of_get (get_resource qs h s' rid cq)).
 Proof. intros St C Q. exact handler_step_coherent_pf. Qed.
+
+(* Store.Init as a history step: its query-change callbacks are exactly those of the creates it performs -
+   one per written seed (a seed whose id held no value) that has an index key, per registered callback, in seed
+   order; none on an initialised store.  A notification for a seed that was not written contradicts the model. *)
+Theorem init_step_callbacks : forall (ixs : list (index val)) ncb (seeds : list (bytes * val)) st d j,
+  NoDup (map fst seeds) -> (forall p, In p seeds -> is_nil (fst p) = false) ->
+  cb_log j (snd (run_changes ixs ncb d (changes_of st (fst (flatten_steps false [SInit seeds]))))) =
+    (if (j <? ncb)%nat then filter (key_changed ixs) (map seed_change (filter (seed_absent st) seeds)) else []) /\
+  cb_log j (snd (run_changes ixs ncb d (changes_of st (fst (flatten_steps true [SInit seeds]))))) = [].
+Proof. exact init_step_callbacks_pf. Qed.
 
 (* ---- non-vacuity ---- *)
 (* byte strings are written as ASCII codes: "k" = [107], "a" = [97], "1" = [49] ... *)
